@@ -1,6 +1,7 @@
 package core
 
 import (
+	"runtime"
 	"bufio"
 	"encoding/json"
 	"fmt"
@@ -41,6 +42,38 @@ type KnownFinding struct {
 	Construct string
 	What      string
 	used      bool
+}
+
+// Merge folds the obligations decided for another build configuration of the
+// same tree into c: an obligation with the same key keeps the worse status
+// (the configuration is named in the detail); keys that exist only in the
+// other configuration are added.
+func (c *Ctx) Merge(o *Ctx, label string) {
+	rank := map[Status]int{OK: 0, Known: 1, Undecided: 2, Violation: 3}
+	idx := map[string]*Obligation{}
+	for _, x := range c.Obls {
+		idx[x.Key()] = x
+	}
+	for _, y := range o.Obls {
+		if x, ok := idx[y.Key()]; ok {
+			if rank[y.Status] > rank[x.Status] {
+				x.Status, x.Pos = y.Status, y.Pos
+				x.Detail = "[" + label + "] " + y.Detail
+			}
+			continue
+		}
+		y.Detail = "[" + label + " only] " + y.Detail
+		c.Obls = append(c.Obls, y)
+		idx[y.Key()] = y
+	}
+	for r, d := range o.RuleDocs {
+		if _, ok := c.RuleDocs[r]; !ok {
+			c.RuleDocs[r] = d
+			c.Floors[r] = o.Floors[r]
+		}
+	}
+	c.Notes = append(c.Notes, fmt.Sprintf("configuration %s: %d repository packages, %d functions, %d obligations merged", label, o.LoadStats["root_packages"], o.LoadStats["functions_total"], len(o.Obls)))
+	c.Configs = append(c.Configs, label)
 }
 
 // Doc registers the one-line description of a rule and its instance floor.
@@ -294,6 +327,7 @@ func (c *Ctx) Finish(verifDir string, seed int, explanation string, assumptions 
 			"packages":               c.LoadStats["root_packages"],
 			"packages_total":         c.LoadStats["packages_total"],
 			"functions_total":        c.LoadStats["functions_total"],
+			"build_configurations":   append([]string{"default (" + runtime.GOOS + "/" + runtime.GOARCH + ")"}, c.Configs...),
 			"per_rule":               perRuleOut,
 			"rule_docs":              c.RuleDocs,
 			"known_findings_matched": knownList,
